@@ -229,7 +229,17 @@ class Matcher:
                         _collect(m_.get("nested") or [])
 
         _collect(exp["execs"])
-        stray = [r for r in seg if r["k"] == "cb+" and r["i"] != tag and r["e"] == n and r["i"] not in xtags]
+        def _prop_read(r):
+            # a guard given as a property is READ when names are resolved (construction, add_listener,
+            # copy); the record carries the tag of the object that owns the property, which for a
+            # listener shared with a shallow copy is the original's
+            for rp_ in self.ref.progs:
+                if r["c"].startswith(rp_.name + "/"):
+                    return bool((rp_.prog["cbs"].get(r["c"].split("/", 1)[1]) or {}).get("prop"))
+            return False
+
+        stray = [r for r in seg if r["k"] == "cb+" and r["i"] != tag and r["e"] == n and r["i"] not in xtags
+                 and not _prop_read(r)]
         if stray:
             self.add("cross_instance", n, op_inst=tag, cb=stray[0]["c"], other=stray[0]["i"])
         cbs = [r for r in seg if r["k"] == "cb+" and r["i"] == tag]
